@@ -75,6 +75,21 @@ CHILD = r"\*param:target\.oomd_ctx\(\)\.addChildToCacheAndGet\(param:target, ele
 
 
 def run(ctx):
+    # locals / parameters the rules below refer to by name (a rename makes the analysis 'broken', never a violation)
+    ctx.anchor(ctx.fn1('Oomd::BaseKillPlugin::tryToKillPids'), 'pids', 'pid')
+    ctx.anchor(ctx.fn1('Oomd::BaseKillPlugin::getAndTryToKillPids'), 'target', 'pids', 'line')
+    ctx.anchor(ctx.fn1('Oomd::BaseKillPlugin::tryToKillCgroup'), 'target', 'cgroupPath', 'killUuid')
+    ctx.anchor(ctx.fn1('Oomd::BaseKillPlugin::tryToLogAndKillCgroup'), 'candidate', 'target')
+    ctx.anchor(ctx.fn1('Oomd::BaseKillPlugin::resumeTryingToKillSomething'), 'nextBestOptionStack', 'ctx', 'candidate')
+    ctx.anchor(ctx.fn1('Oomd::BaseKillPlugin::resumeFromPrekillHook'), 'ctx', 'intendedVictim', 'nextBestOptionStack', 'skc', 'deserializeKillCandidate', 'deserializeCgroupRef')
+    ctx.anchor(ctx.fn1('Oomd::BaseKillPlugin::tryToKillSomething'), 'ctx', 'initialCgroups', 'nextBestOptionStack')
+    ctx.anchor(ctx.fn1('Oomd::BaseKillPlugin::reapCgroupRecursively'), 'target')
+    ctx.anchor(ctx.fn1('Oomd::BaseKillPlugin::reapProcess'), 'pid')
+    ctx.anchor(ctx.fn1('Oomd::BaseKillPlugin::setxattr'), 'path', 'attr', 'val')
+    ctx.anchor(ctx.fn1('Oomd::BaseKillPlugin::reportKillInitiationToXattr'), 'cgroupPath')
+    ctx.anchor(ctx.fn1('Oomd::BaseKillPlugin::reportKillCompletionToXattr'), 'cgroupPath')
+    ctx.anchor(ctx.fn1('Oomd::BaseKillPlugin::reportKillUuidToXattr'), 'cgroupPath')
+    ctx.anchor(ctx.fn1('Oomd::BaseKillPlugin::run'), 'ctx')
     P = ctx.prog
     # ------------------------------------------------------------ R1 who-may-call
     found = {k: 0 for k in SINKS}
@@ -386,7 +401,7 @@ def run(ctx):
                 t = Xs2(f.nodes[r]["val"])
                 ctx.count("sortDesc_instances")
                 ctx.check(t == "param:cgroups" or (t.startswith("var:") and
-                                                   Xs2(local_init(f, t[4:])[0]) == "param:cgroups"),
+                                                   Xs2(local_init(f, t[4:], must=False)[0]) == "param:cgroups"),
                           "sortDesc-returns-copy-of-input", "provenance", f.loc(r),
                           "returns a (sorted) copy of its argument", "returns " + t)
                 rv = f.text(f.nodes[r]["val"])
